@@ -114,6 +114,7 @@ pub(crate) const E_INVALID_STATE: u8 = 1;
 pub(crate) const E_LEADER_MISMATCH: u8 = 2;
 pub(crate) const E_HASH_MISMATCH: u8 = 3;
 pub(crate) const E_VALIDATE_FAILED: u8 = 4;
+pub(crate) const E_INVALID_PROGRAM: u8 = 5;
 pub(crate) const E_OTHER: u8 = 9;
 impl EnvErr for ScheduleError {
     const SLOT: usize = SCHEDULE;
@@ -122,6 +123,7 @@ impl EnvErr for ScheduleError {
             ScheduleError::InvalidStateLeader { .. } | ScheduleError::InvalidStateFollower { .. } => E_INVALID_STATE,
             ScheduleError::LeaderMismatch { .. } => E_LEADER_MISMATCH,
             ScheduleError::ValidateFailed { .. } => E_VALIDATE_FAILED,
+            ScheduleError::InvalidProgram { .. } => E_INVALID_PROGRAM,
             #[allow(unreachable_patterns)]
             _ => E_OTHER,
         }
@@ -255,6 +257,22 @@ impl<F: std::future::Future> EnvTry for F {
             std::task::Poll::Pending => None,
         }
     }
+}
+
+static mut ENV_TYPE_CHECK_FAILS: bool = false;
+static mut ENV_TYPE_CHECK_PASSED: bool = false;
+/// the Garble type checker: an arbitrary verdict
+fn env_type_check(_program: &str) -> Result<TypedProgram, garble_lang::Error> {
+    if unsafe { ENV_TYPE_CHECK_FAILS } { Err(garble_lang::Error::FnNotFound(String::new())) } else { Ok(fake_typed_program()) }
+}
+/// rendering of the type error (walks the whole error tree and the source): not the subject
+fn env_prettify(err: garble_lang::Error, _prg: &str) -> String {
+    std::mem::forget(err);
+    String::new()
+}
+fn env_type_check_passed(prg: TypedProgram) {
+    unsafe { ENV_TYPE_CHECK_PASSED = true };
+    std::mem::forget(prg);
 }
 
 static mut ENV_OUTPUTS: u8 = 0;
@@ -878,4 +896,107 @@ fn c15_cancel_after_the_mpc_task_acknowledged() {
     assert!(done.is_some() && answer(CANCEL, false) == (OK, 1), "C15:cancel:completes-with-Ok-once-the-task-has-acknowledged");
     kani::cover!(true, "reachable");
     std::mem::forget((cancel, cancelled));
+}
+
+// ------------------------------------------------------------------------------------------ more of C14 / C16
+
+/// C14 - a run request in a state that cannot run (not validated yet / already executing): the
+/// arm of run() that takes these states answers InvalidState (if the request has a reply
+/// channel), keeps the state and the endpoints, and the machine keeps running.
+fn run_in_wrong_state(executing_state: bool, with_reply: bool) {
+    reset_answers();
+    let st = if executing_state { EnvState::executing() } else { EnvState::new(PolicyStateKind::Init) };
+    // run() takes the state out of the machine before matching on it
+    let mut st = st;
+    let state = std::mem::take(&mut st.state_kind);
+    let flow = seg_sc_run_fallback(st, state, RunRequest { computation_id: Uuid::nil() }, if with_reply { Some(open_ret()) } else { None });
+    match flow {
+        ControlFlow::Continue(st) => {
+            let kept = if executing_state { matches!(st.state_kind, PolicyStateKind::Executing { .. }) && st.endpoints_untouched() } else { matches!(st.state_kind, PolicyStateKind::Init) };
+            assert!(kept, "C14:run:stray-run-keeps-the-state-and-the-endpoints");
+            assert!(answer(RUN, false) == if with_reply { (E_INVALID_STATE, 1) } else { (NONE, 0) }, "C14:run:stray-run-is-answered-with-an-invalid-state-error");
+            assert!(unsafe { ENV_CMDS } == 0 && unsafe { ENV_OUTPUTS } == 0, "C14:run:stray-run-starts-nothing");
+            kani::cover!(true, "reachable");
+            std::mem::forget(st);
+        }
+        ControlFlow::Break(()) => assert!(false, "C14:run:stray-run-does-not-stop-the-state-machine"),
+    }
+}
+
+#[kani::proof]
+#[kani::unwind(5)]
+#[kani::stub(std::fmt::format, no_format)]
+#[kani::stub(std::collections::hash_map::RandomState::new, env_random_state)]
+fn c14_run_before_schedule() {
+    run_in_wrong_state(false, true)
+}
+
+#[kani::proof]
+#[kani::unwind(5)]
+#[kani::stub(std::fmt::format, no_format)]
+#[kani::stub(std::collections::hash_map::RandomState::new, env_random_state)]
+fn c14_run_while_executing() {
+    run_in_wrong_state(true, true)
+}
+
+#[kani::proof]
+#[kani::unwind(5)]
+#[kani::stub(std::fmt::format, no_format)]
+#[kani::stub(std::collections::hash_map::RandomState::new, env_random_state)]
+fn c14_internal_run_while_executing() {
+    run_in_wrong_state(true, false)
+}
+
+/// C16 - a policy whose program does not type-check is refused by its own party's schedule call
+/// before anything else happens (no endpoints, no client, no state change); one that does is
+/// passed on.
+#[kani::proof]
+#[kani::unwind(5)]
+#[kani::stub(std::fmt::format, no_format)]
+#[kani::stub(std::collections::hash_map::RandomState::new, env_random_state)]
+fn c16_ill_typed_program_is_refused_first() {
+    let fails: bool = kani::any();
+    reset_answers();
+    unsafe {
+        ENV_TYPE_CHECK_FAILS = fails;
+        ENV_TYPE_CHECK_PASSED = false;
+    }
+    let flow = seg_sc_schedule_head(EnvState::new(PolicyStateKind::Init), fake_policy(kani::any(), kani::any()), open_ret());
+    let passed = unsafe { ENV_TYPE_CHECK_PASSED };
+    if fails {
+        assert!(answer(SCHEDULE, false) == (E_INVALID_PROGRAM, 1), "C16:schedule:ill-typed-program-is-refused-with-an-error");
+        assert!(matches!(flow, ControlFlow::Break(())) && !passed, "C16:schedule:ill-typed-program-ends-the-policy-before-anything-else");
+        std::mem::forget(flow);
+    } else {
+        assert!(answer(SCHEDULE, false) == (NONE, 0) && passed, "C16:schedule:well-typed-program-is-passed-on");
+        match flow {
+            ControlFlow::Continue(st) => {
+                assert!(st.init_channel_calls == 0 && matches!(st.state_kind, PolicyStateKind::Init), "C16:schedule:nothing-happens-before-the-type-check");
+                std::mem::forget(st);
+            }
+            ControlFlow::Break(()) => assert!(false, "C16:schedule:well-typed-program-is-passed-on"),
+        }
+    }
+    kani::cover!(fails, "ill_typed_reachable");
+    kani::cover!(!fails, "well_typed_reachable");
+}
+
+/// C16 - the leader's side: when a follower refuses the validate request, the leader's schedule
+/// call ends with ValidateFailed, the policy ends, no run is requested (no MPC traffic can start).
+#[kani::proof]
+#[kani::unwind(12)]
+#[kani::stub(std::fmt::format, no_format)]
+#[kani::stub(std::collections::hash_map::RandomState::new, env_random_state)]
+fn c16_leader_ends_when_a_follower_refuses() {
+    reset_answers();
+    unsafe {
+        ENV_VALIDATE_FAILS = true;
+        ENV_RUN_FAILS = kani::any();
+    }
+    let flow = seg_sc_leader_rpcs(EnvState::new(PolicyStateKind::Init), policy_with_output(false), open_ret(), fake_typed_program(), NoClient);
+    assert!(answer(SCHEDULE, false) == (E_VALIDATE_FAILED, 1), "C16:schedule:leader-schedule-ends-with-an-error-when-a-follower-refuses");
+    assert!(matches!(flow, ControlFlow::Break(())), "C16:schedule:leader-policy-ends-when-a-follower-refuses");
+    assert!(unsafe { ENV_CMDS } == 0 && unsafe { ENV_PERMITS_TAKEN } == 0 && unsafe { ENV_OUTPUTS } == 0, "C16:schedule:no-run-is-requested-after-a-refused-validate");
+    kani::cover!(true, "reachable");
+    std::mem::forget(flow);
 }
